@@ -36,7 +36,7 @@ def check_doc(case) -> Result:
         return r
     feat = case.get("feat", [])
     r.classes = tuple(feat)
-    stats = rendercmp.compare(src, out, r, what=("stack", "rgba"), strokes=False, gradients=False)
+    stats = rendercmp.compare(src, out, r, what=("stack", "rgba"), strokes=False, gradients=False, attribute=not case.get("pinned"))
     if stats and not r.rejected:
         interesting = any(f in feat for f in ("group-opacity", "use-opacity", "use-borne-paint", "style-vs-attr", "explicit-default-fill")) or any(f.startswith("root-") for f in feat)
         r.nontrivial = bool(interesting and stats["trusted"] >= 20 and stats["covered"] >= 5)
